@@ -50,10 +50,15 @@ class DualSolver:
         self.qf = z3.Solver()
         self.qf.set('timeout', opts.branch_ms)
         self.qf.set('random_seed', opts.seed)
+        self._branch_ms = opts.branch_ms
         # third mirror: facts over integer constants only (allocation order of references,
         # lengths): answers "are these two references provably different" in microseconds
         self.ord = z3.Solver()
         self.ord.set('timeout', 200)
+        self._model = None
+        self._pending = []
+        self._verified = 0
+        self._marks = []
 
     def add(self, f):
         from .solve import has_quantifier
@@ -66,6 +71,7 @@ class DualSolver:
                     self.ord.add(x)
         if not has_quantifier(f):
             self.qf.add(f)
+            self._pending.append(f)
         elif z3.is_app(f) and f.decl().kind() == z3.Z3_OP_AND:
             # the quantifier-free conjuncts of a mixed conjunction still prune branches
             todo = list(f.children())
@@ -73,6 +79,7 @@ class DualSolver:
                 x = todo.pop()
                 if not has_quantifier(x):
                     self.qf.add(x)
+                    self._pending.append(x)
                 elif z3.is_app(x) and x.decl().kind() == z3.Z3_OP_AND:
                     todo.extend(x.children())
 
@@ -80,11 +87,15 @@ class DualSolver:
         self.main.push()
         self.qf.push()
         self.ord.push()
+        self._marks.append(len(self._pending))
 
     def pop(self):
         self.main.pop()
         self.qf.pop()
         self.ord.pop()
+        n = self._marks.pop() if self._marks else 0
+        del self._pending[n:]
+        self._verified = min(self._verified, n)
 
     def provably_different(self, a, b):
         if a.eq(b):
@@ -102,7 +113,53 @@ class DualSolver:
         return self.main.check()
 
     def feasible(self):
-        return self.qf.check() != z3.unsat
+        """pruning only: may the quantifier-free assumptions hold together? The last model found is
+        kept: if it also satisfies everything added since, no solver call is needed"""
+        m = getattr(self, '_model', None)
+        if m is not None:
+            ok = True
+            for f in self._pending[self._verified:]:
+                try:
+                    if not z3.is_true(m.eval(f, model_completion=True)):
+                        ok = False
+                        break
+                except z3.Z3Exception:
+                    ok = False
+                    break
+                self._verified += 1
+            if ok:
+                return True
+        # the incremental solver (push/pop) is weak on large contexts: give it a short try, then
+        # ask a fresh non-incremental solver, which decides the same assertions in milliseconds
+        fresh = None
+        if getattr(self, '_skip_incremental', 0) > 0:
+            self._skip_incremental -= 1
+            r = z3.unknown
+        else:
+            self.qf.set('timeout', 150)
+            r = self.qf.check()
+            self.qf.set('timeout', self._branch_ms)
+            if r == z3.unknown:
+                self._slow_incremental = getattr(self, '_slow_incremental', 0) + 1
+                if self._slow_incremental >= 3:
+                    self._skip_incremental = 8    # it keeps giving up: go straight to the fresh solver for a while
+                    self._slow_incremental = 0
+            else:
+                self._slow_incremental = 0
+        if r == z3.unknown:
+            fresh = z3.Solver()
+            fresh.set('timeout', self._branch_ms)
+            fresh.add(self.qf.assertions())
+            r = fresh.check()
+        if r == z3.sat:
+            try:
+                self._model = (fresh or self.qf).model()
+                self._pending = []
+                self._verified = 0
+                self._marks = [0] * len(self._marks)
+            except z3.Z3Exception:
+                self._model = None
+        return r != z3.unsat
 
     def model(self):
         return self.main.model()
@@ -374,6 +431,113 @@ class FnCtx:
         if kind == 'addr':
             return st.load(st.ptr_loc(v))
         return v
+
+    def const_cell_ids(self):
+        if not hasattr(self, '_const_ids'):
+            self._const_ids = set()
+            self._const_keep = []
+        return self._const_ids
+
+    def const_allocs(self):
+        """Alloc registers of the function under contract holding a variable that is written once
+        (its initialisation) and only read afterwards, here and in every closure that captures it"""
+        if hasattr(self, '_const_allocs'):
+            return self._const_allocs
+        self.const_cell_ids()
+        fn = self.fn
+        allocs = {}
+        uses = {}
+        for blk in fn['blocks']:
+            for ins in blk['instrs']:
+                if ins['op'] == 'Alloc':
+                    allocs[ins['name']] = ins
+        bad = set()
+        nstores = {}
+        captured = {}
+
+        def refs(v, out):
+            if isinstance(v, dict):
+                if v.get('k') == 'reg' and v.get('name') in allocs:
+                    out.append(v['name'])
+                for vv in v.values():
+                    refs(vv, out)
+            elif isinstance(v, list):
+                for vv in v:
+                    refs(vv, out)
+        for blk in fn['blocks']:
+            for ins in blk['instrs']:
+                op = ins['op']
+                if op == 'Store':
+                    a = ins['addr']
+                    if a.get('k') == 'reg' and a.get('name') in allocs:
+                        nstores[a['name']] = nstores.get(a['name'], 0) + 1
+                    o = []
+                    refs(ins.get('val'), o)
+                    bad.update(o)       # the address itself is stored somewhere
+                elif op == 'UnOp' and ins.get('uop') == '*':
+                    pass
+                elif op == 'DebugRef':
+                    pass
+                elif op == 'MakeClosure':
+                    for j, bnd in enumerate(ins.get('bindings') or []):
+                        if bnd.get('k') == 'reg' and bnd.get('name') in allocs:
+                            captured.setdefault(bnd['name'], []).append((ins['fn']['name'], j))
+                else:
+                    o = []
+                    for k2, v2 in ins.items():
+                        if k2 in ('name', 'type', 'pos', 'op'):
+                            continue
+                        refs(v2, o)
+                    bad.update(o)       # any other use (passed to a call, field address, ...)
+        out = set()
+        for a, caps in captured.items():
+            if a in bad or nstores.get(a, 0) > 1:
+                continue
+            ok = True
+            for (cfn, j) in caps:
+                cf = self.prog.funcs.get(cfn)
+                if cf is None:
+                    ok = False
+                    break
+                fvs = cf.get('freevars') or []
+                if j >= len(fvs):
+                    ok = False
+                    break
+                fvname = fvs[j]['name']
+                for blk in cf['blocks']:
+                    for ins in blk['instrs']:
+                        if ins['op'] == 'UnOp' and ins.get('uop') == '*':
+                            continue
+                        if ins['op'] == 'DebugRef':
+                            continue
+                        txt = []
+
+                        def fv(v):
+                            if isinstance(v, dict):
+                                if v.get('k') == 'freevar' and v.get('name') == fvname:
+                                    txt.append(1)
+                                for vv in v.values():
+                                    fv(vv)
+                            elif isinstance(v, list):
+                                for vv in v:
+                                    fv(vv)
+                        for k2, v2 in ins.items():
+                            if k2 in ('name', 'type', 'pos', 'op'):
+                                continue
+                            fv(v2)
+                        if txt:
+                            ok = False
+                            break
+                    if not ok:
+                        break
+                if not ok:
+                    break
+            if ok:
+                out.add(a)
+        self._const_allocs = out
+        if out:
+            self.notes.append('captured variables never reassigned (cells keep their value across calls): %s' % sorted(allocs[a].get('comment') or a for a in out))
+        return out
 
     def resolve_addr(self, st, n):
         """location of a source variable that lives in memory (its address is taken)"""
